@@ -20,7 +20,7 @@ Inductive stmt :=
 | SCall (f : N)                     (* f<f>(); *)
 | SCallAttr (a f : N)               (* <alias a>.f<f>(); *)
 | SThrow                            (* throw "boom"; *)
-| SUseBuiltin (k : N)               (* 0 print(type(1)); 1 print(Vec); 2 print(type(print)); 3 print(RuntimeError); *)
+| SUseBuiltin (k : N)               (* 0 print(type(1)); 1 print(Vec); 2 print(type(print)); k >= 3: print(<use_name k>); *)
 | SFiber (d f : N)                  (* Fiber.new(|| Fiber.new(|| ... f<f>() ...).call()).call();   d nested fibers *)
 | STry (body : list stmt)           (* try { body } catch e { print(type(e)); print(message of e); } *)
 | SBlock (body : list stmt).        (* { body } *)
@@ -63,6 +63,15 @@ Definition import_alias (p a : N) : name :=
 Definition tag_text (t : N) : string := "t" ++ show_N t.
 Definition fn_key (src : nat) (f : N) : name := show_nat src ++ ":" ++ show_N f.
 Definition thrown_text : string := "boom".
+
+(* the start-up names a program may use by number (SUseBuiltin k, k >= 3): what init_built_in_globals installs and what
+   core.yl defines, as of the sources this model was written against (the plug-in reports names of the current sources
+   that are missing here as "uncovered") *)
+Definition use_names : list name :=
+  ["RuntimeError"; "clock"; "type"; "print"; "Type"; "Object"; "Nil"; "Bool"; "Num"; "Func"; "BuiltIn"; "Method";
+   "BuiltInMethod"; "String"; "Iter"; "MapIter"; "FilterIter"; "Tuple"; "Vec"; "Range"; "HashMap"; "Fiber"; "Error";
+   "AttributeError"; "IndexError"; "ImportError"; "NameError"; "TypeError"; "ValueError"; "StopIter"].
+Definition use_name (k : N) : name := nth (N.to_nat (k - 3)) use_names "RuntimeError".
 
 Definition bad_source (k : N) : string :=
   match k with
@@ -113,7 +122,9 @@ End Oracles.
 (* ---- Display of values ---- *)
 Definition builtin_display (b : name) : string :=
   if String.eqb b "print" || String.eqb b "type" || String.eqb b "clock"
-  then "<built-in fn " ++ b ++ ">" else "<class " ++ b ++ ">".
+  then "<built-in fn " ++ b ++ ">"
+  else if String.eqb b "Bool" then "<class Boolean>"      (* the class of the booleans is named Boolean *)
+  else "<class " ++ b ++ ">".
 
 Definition kind_class (k : errkind) : string :=
   match k with
@@ -307,8 +318,8 @@ Section Mech.
             | 0%N => get_global x1 "type" (fun x2 _ => RNormal env (emit x2 "<class Num>"))
             | 1%N => get_global x1 "Vec" (fun x2 w => RNormal env (emit x2 (display_m (ms x2) w)))
             | 2%N => get_global x1 "type" (fun x2 _ => get_global x2 "print" (fun x3 _ => RNormal env (emit x3 "<class BuiltIn>")))
-            | _ => let x1' := note_main_only x1 "RuntimeError" in
-                   get_global x1' "RuntimeError" (fun x2 w => RNormal env (emit x2 (display_m (ms x2) w)))
+            | _ => let x1' := note_main_only x1 (use_name k) in
+                   get_global x1' (use_name k) (fun x2 w => RNormal env (emit x2 (display_m (ms x2) w)))
             end)
         | SFiber d f => run_task fuel' (TkFiber (N.to_nat d) f env) x
         | STry body =>
@@ -594,7 +605,7 @@ Section SpecEval.
             | 0%N => sget cur x "type" (fun _ => QNormal env (semit x "<class Num>"))
             | 1%N => sget cur x "Vec" (fun w => QNormal env (semit x (display_s w)))
             | 2%N => sget cur x "type" (fun _ => sget cur x "print" (fun _ => QNormal env (semit x "<class BuiltIn>")))
-            | _ => sget cur x "RuntimeError" (fun w => QNormal env (semit x (display_s w)))
+            | _ => sget cur x (use_name k) (fun w => QNormal env (semit x (display_s w)))
             end)
         | SFiber d f => srun_task fuel' cur depth (SkFiber (N.to_nat d) f env) x
         | STry body =>
@@ -730,7 +741,7 @@ Fixpoint render_stmt (s : stmt) : string :=
   | SUseBuiltin k =>
     match k with
     | 0%N => "print(type(1));" | 1%N => "print(Vec);" | 2%N => "print(type(print));"
-    | _ => "print(RuntimeError);"
+    | _ => "print(" ++ use_name k ++ ");"
     end
   | SFiber d f => render_fiber (N.to_nat d) (fn_name f ++ "()") ++ ";"
   | STry body => "try { " ++ render_list body ++ "} " ++ catch_text
@@ -789,7 +800,7 @@ Fixpoint wf_stmt (nmods : nat) (s : stmt) : bool :=
   match s with
   | SImport p a => negb (N.eqb p 0) && Nat.ltb (N.to_nat p) 5 && N.ltb a 100
   | STry body | SBlock body => wf_list body && negb (dup_alias [] body)
-  | SUseBuiltin k => N.ltb k 4
+  | SUseBuiltin k => N.ltb k 33
   | SFiber d _ => N.ltb d 8
   | _ => true
   end.
